@@ -78,6 +78,11 @@ def eval_cases(ck, name, bases, cases):
     Each statement is sent as the bytes between a prefix and a suffix it shares with its baseline; the cut
     points are fixed per baseline (the shortest common prefix/suffix over this shard's cases, minus a margin),
     Coq lexes prefix ++ middle ++ suffix (model/SqlCase.v case_toks)."""
+    # only the baselines this shard refers to travel (each costs a lexer run over the whole statement inside Coq)
+    used = sorted(set(c["base"] for c in cases if c["base"] >= 0))
+    remap = {b: i for i, b in enumerate(used)}
+    bases = [bases[b] for b in used]
+    cases = [dict(c, base=remap.get(c["base"], -1)) for c in cases]
     bsql = [bytes.fromhex(b["sql"]) for b in bases]
     cut = {}
     for c in cases:
@@ -151,13 +156,14 @@ def run_correspondence(ck, known):
             return
         runs.append(("corpus", outp))
     outp = os.path.join(ck.work, "gen_out.jsonl")
-    rc, out = ck.go_run("sqlinject", ["--seed", ck.seed, "--n", ck.n(3000, 100000), "--out", outp])
+    rc, out = ck.go_run("sqlinject", ["--seed", ck.seed, "--n", ck.n(3400, 100000), "--out", outp])
     if rc != 0:
         ck.obligation("harness sqlinject ran", False, out[-1500:])
         return
     runs.append(("gen", outp))
 
     total, verd_all, by_id, hist, sites, rejs = 0, {}, {}, {}, {}, {}
+    shaped_sites, shaped_cls, whole_cls, re_sites = {}, {}, {}, set()
     distinct = set()
     nbad_base = 0
     tq_pairs = []
@@ -174,10 +180,24 @@ def run_correspondence(ck, known):
             ck.violation({"property": "C10", "kind": "no baseline statement for this site (marker rejected or statement count differs)",
                           "case": describe(c)}, no_input=True)
         cases = [c for c in cases if c not in nobase]
-        shard = 3000
-        for k in range(0, len(cases), shard):
-            part = cases[k:k + shard]
-            v, out = eval_cases(ck, "C10_%s_%d" % (tag, k // shard), bases, part)
+        # shards are evaluated side by side; a shard takes the cases of whole sites (cases sorted by baseline) so that each baseline
+        # statement is lexed in one shard only
+        from concurrent.futures import ThreadPoolExecutor
+        order = sorted(cases, key=lambda c: (c["base"], c["id"]))
+        nsh = max(1, min(4, len(order) // 600)) if len(order) <= 12000 else (len(order) + 2999) // 3000
+        # measured: a baseline costs about seven cases; equal-cost parts, cut between baselines
+        cost, seen_b, acc = [], set(), 0
+        for c in order:
+            acc += 1 if c["base"] in seen_b else 8
+            seen_b.add(c["base"])
+            cost.append(acc)
+        parts = [[] for _ in range(nsh)]
+        for c, a in zip(order, cost):
+            parts[min(nsh - 1, ((a - 1) * nsh) // max(1, acc))].append(c)
+        parts = [pt for pt in parts if pt]
+        with ThreadPoolExecutor(max_workers=4) as ex:
+            outs = list(ex.map(lambda kp: eval_cases(ck, "C10_%s_%d" % (tag, kp[0]), bases, kp[1]), enumerate(parts)))
+        for v, out in outs:
             if v is None:
                 ck.obligation("sqlinject cases evaluated inside Coq", False, out[-1500:])
                 return
@@ -192,10 +212,24 @@ def run_correspondence(ck, known):
             total += 1
             hist[c["class"]] = hist.get(c["class"], 0) + 1
             sites[c["site"]] = sites.get(c["site"], 0) + 1
+            if c.get("shape"):
+                re_sites.add(c["site"])
+                if c.get("shaped"):
+                    shaped_sites[c["site"]] = shaped_sites.get(c["site"], 0) + 1
+                    shaped_cls[c["class"]] = shaped_cls.get(c["class"], 0) + 1
+                else:
+                    whole_cls[c["class"]] = whole_cls.get(c["class"], 0) + 1
             v = bytes.fromhex(c["val"])
             if any(ch in v for ch in b"'\\\x00\n\r\x08\t\x1a%_-/*#") or any(ch >= 0x80 for ch in v):
                 distinct.add(c["site"] + "|" + c["val"])
     ck.obligation("every site has a baseline statement", nbad_base == 0, "%d cases without baseline" % nbad_base)
+    # round 4: a position whose requests are all rejected (or die in the harness) is not covered at all: the three PromQL regex-matcher
+    # positions were in that state (hand-built labels.Matcher without compiled expression), unnoticed
+    allsites = set(sites) | set(rejs)
+    dead = sorted(st for st in allsites if sites.get(st, 0) < min(3, int(ck.n(3, 3))))
+    panics = sorted(set(r["site"] for tag, path in runs for r in load(path)[2] if str(r.get("rej", "")).startswith("panic")))
+    ck.obligation("every one of the %d positions has evaluated statements (no position is rejected throughout), and no request dies outside the code's own error handling"
+                  % len(allsites), not dead and not panics, "no evaluated case at: %s; panic at: %s" % (dead, panics))
     run_tree_tie(ck, list(by_id.values()), "gen+corpus")
     c10tq.run(ck, tq_pairs, "gen+corpus", describe)
     c10sel.run(ck, list(by_id.values()), "gen+corpus")
@@ -226,6 +260,14 @@ def run_correspondence(ck, known):
     empty = [k for k, n in per_class.items() if n < 15]
     ck.obligation("every kind of request string named in the property has evaluated cases in the differential run: %s" % per_class,
                   not empty, "no (or < 15) cases for: %s" % empty)
+    # round 4: hostile strings INSIDE a regular expression of a shape a fast path could special-case (anchored alternation of literals,
+    # literal, prefix / suffix, case-insensitive flag, empty alternative, quoted metacharacters), compared with the same shape around the marker
+    thin = sorted(st for st in re_sites if shaped_sites.get(st, 0) < int(ck.n(3, 40)))
+    ck.obligation("every regex-carrying position (%d) has hostile strings inside shaped regular expressions judged against the same shape around the marker: %d cases, per shape class %s"
+                  % (len(re_sites), sum(shaped_sites.values()), shaped_cls), not thin and len(shaped_cls) >= 7 and len(re_sites) >= 30,
+                  "too few shaped cases at: %s" % thin)
+    ck.extra["shaped_regex_cases"] = {"per_site_judged_against_the_shaped_baseline": shaped_sites, "per_shape_class": shaped_cls,
+                                      "shaped_value_judged_against_the_plain_marker_(structure_of_the_expression_differs_from_the_marker's,_or_a_literal_handled_by_doLike)": whole_cls}
     ck.extra["input_distribution"] = {"classes": hist, "sites": sites, "rejected_by_parser_or_planner": rejs,
                                       "verdict_codes": CODE, "cases_per_property_string_class": per_class}
     samples = [by_id[i] for i in list(by_id)[:400:140]]
@@ -621,7 +663,7 @@ def run_replay(ck):
         ck.obligation("harness sqlinject builds against the repository", False, ck.build_out[-1500:])
         return
     inp = os.path.join(ck.work, "replay_in.jsonl")
-    open(inp, "w").write(json.dumps({"site": c["site"], "val": c["val"]}) + "\n")
+    open(inp, "w").write(json.dumps({"site": c["site"], "val": c["val"], "shape": c.get("shape")}) + "\n")
     outp = os.path.join(ck.work, "replay_out.jsonl")
     rc, out = ck.go_run("sqlinject", ["--cases", inp, "--out", outp])
     bases, cases, rej = load(outp)
